@@ -237,11 +237,11 @@ theorem load_emitAll (v : Variant) : ∀ (ds : List WDP) (st : LState), Clean st
     · rw [ht2, ht1]; rfl
     · rw [hl2, hl1]; simp
 
-theorem load_block (v : Variant) (st : LState) (e : Bool) :
-    loadFrom v st (blockRecs e) = .ok (atComment v st) := by
+theorem load_block (v : Variant) (st : LState) (g e : Bool) :
+    loadFrom v st (blockRecs g e) = .ok (atComment v st) := by
   have hat : ∀ s : LState, atComment v (atComment v s) = atComment v s := by
     intro s; unfold atComment; split <;> simp_all
-  cases e <;> simp [blockRecs, loadFrom, step, hat]
+  cases g <;> cases e <;> simp [blockRecs, loadFrom, step, hat]
 
 theorem atComment_tables (v : Variant) (st : LState) : (atComment v st).tables = st.tables := by
   unfold atComment; split <;> rfl
